@@ -1,5 +1,29 @@
 #!/usr/bin/env bash
-# post step of ./check C17: valgrind memcheck pass in the thorough tier
+# post step of ./check C17 (thorough tier only): valgrind memcheck pass over shards of the hostile
+# workload (blst backend, sees across the FFI) and the Miri canary (pure-Rust backend, scalar-only
+# decoders). Miri is informational unless it reports undefined behaviour inside /repo/src.
 HERE="$(cd "$(dirname "${BASH_SOURCE[0]}")/.." && pwd)"
 [ "$1" = thorough ] || exit 0
-exec "$HERE/tools/valgrind_pass.sh" C17 "$2" 16 96
+"$HERE/tools/valgrind_pass.sh" C17 "$2" 16 96 || exit $?
+out="$HERE/replay/.work/miri-canary.log"; mkdir -p "$HERE/replay/.work"
+( cd "$HERE/miri-canary" && cp /repo/Cargo.lock Cargo.lock 2>/dev/null; timeout 1500 cargo +nightly miri run --offline --target-dir "$HERE/target-miri" ) >"$out" 2>&1
+rc=$?
+python3 - "$out" "$rc" "$HERE" <<'PY'
+import json, os, sys
+out, rc, here = sys.argv[1], int(sys.argv[2]), sys.argv[3]
+t = open(out, errors="replace").read()
+ub = "Undefined Behavior" in t
+inrepo = ub and "/repo/src" in t
+last = [l for l in t.strip().splitlines() if l.strip()][-1:] or [""]
+res = {"tool": "cargo +nightly miri run (pure-Rust backend, scalar-only decoders)", "exit": rc, "undefined_behaviour_reported": ub, "last_line": last[0][:300]}
+print("miri-canary:", json.dumps(res))
+ev = os.path.join(here, "evidence", "C17.json")
+if os.path.exists(ev) and os.environ.get("VERIF_NO_EVIDENCE") != "1":
+    d = json.load(open(ev)); d["coverage"]["miri_canary"] = res; json.dump(d, open(ev, "w"), indent=1)
+if inrepo:
+    rp = os.path.join(here, "replay", "C17-miri.json")
+    json.dump({"property": "C17", "signature": "miri/undefined-behaviour-in-repo", "detail": t[-4000:]}, open(rp, "w"), indent=1)
+    print(f"VIOLATION property=C17 replay={rp} signature=miri/undefined-behaviour-in-repo")
+    sys.exit(1)
+sys.exit(0)
+PY
